@@ -44,9 +44,20 @@ def r03_1(run):
     cover_cmd = cover_queue = False
     for lp, dname, errs in loops:
         it = c01._resolve_name(defs, lp.iter)
-        if mentions(it, 'self.command'):
+        srcs = [it]
+        if isinstance(lp.iter, ast.Name):
+            # a list assembled step by step: every definition of the local and what is inserted / appended / added to it
+            nm = lp.iter.id
+            for n_ in walk_unit(cl):
+                if isinstance(n_, ast.Assign) and assign_to(n_, nm) is not None:
+                    srcs.append(assign_to(n_, nm))
+                elif isinstance(n_, ast.AugAssign) and dotted(n_.target) == nm:
+                    srcs.append(n_.value)
+                elif isinstance(n_, ast.Call) and callee_attr(n_) in ('insert', 'append', 'extend', 'appendleft') and dotted(receiver(n_)) == nm and n_.args:
+                    srcs.append(n_.args[-1])
+        if any(mentions(x, 'self.command') for x in srcs):
             cover_cmd = True
-        if mentions(it, 'self.commands'):
+        if any(mentions(x, 'self.commands') for x in srcs):
             cover_queue = True
         if isinstance(it, ast.IfExp):
             if dotted(it.test) == 'self.command':
